@@ -132,6 +132,9 @@ func genDBody(r *rnd, depth int, n *int) DBody {
 			}
 			nb := genDBody(r, depth+1, n)
 			it.Body = &nb
+			if r.chance(1, 8) {
+				it.OpenCmt = cmt(r, n)
+			}
 			if r.chance(1, 6) {
 				// single-line block: at most one attribute, no comments inside
 				it.OneLine = true
@@ -222,7 +225,11 @@ func renderBody(b *DBody, ind string, nl string, sb *strings.Builder) {
 				}
 				sb.WriteString("}")
 			} else {
-				sb.WriteString(" {" + nl)
+				sb.WriteString(" {")
+				if it.OpenCmt != "" {
+					sb.WriteString(" " + it.OpenCmt)
+				}
+				sb.WriteString(nl)
 				if it.Body != nil {
 					renderBody(it.Body, ind+"  ", nl, sb)
 				}
